@@ -89,7 +89,7 @@ _POOL = None
 
 class C06(RProp):
     def generate(self, tier, rnd):
-        n = 1000 if tier == "quick" else 20000
+        n = 1000 if tier == "quick" else 100000
         out = []
         while len(out) < n:
             mj = rnd.choice([3, 5, 8, self.max_jobs, self.max_jobs])
